@@ -358,3 +358,9 @@ Definition load (t : stree) (d : doc) : result loaded :=
   | Ok ((genes, tops), s) => Ok {| l_genes := genes; l_tops := tops; l_state := s |}
   | Err e => Err e
   end.
+
+(* the forest the analysis layers work on: top-level HOGs, and the declared genes no group references *)
+Definition singles_of (l : loaded) : list hog :=
+  let used := flat_map (fun top => genes_of (snd top)) (l_tops l) in
+  map (fun gp => HGene (fst gp) (snd gp))
+      (filter (fun gp => negb (existsb (String.eqb (fst gp)) used)) (l_genes l)).
